@@ -640,6 +640,10 @@ func (env *Env) callExpr(n *ast.CallExpr) SV {
 		s := env.toSeq(arg(0))
 		i := env.int(n.Args[1])
 		return svBool(eq(sx("bitat", s.At(sx("div", i, "8")), sx("-", "7", sx("mod", i, "8"))), "1"))
+	case "priv":
+		v := arg(0)
+		x.vc.S.declFun("priv", []string{"Int", "Int", "Int"}, "Bool")
+		return svBool(sx("priv", v.V[0].T, v.V[1].T, env.int(n.Args[1])))
 	case "isnil":
 		return svBool(eq(arg(0).V[0].T, "0"))
 	case "ref":
@@ -725,6 +729,9 @@ func (x *Exec) evalLoc(env *Env, e ast.Expr) string {
 		if id, ok := n.Fun.(*ast.Ident); ok && id.Name == "old" {
 			return x.evalLoc(env.withState(env.old), n.Args[0])
 		}
+	}
+	if id, ok := e.(*ast.Ident); ok && id.Name == "nothing" {
+		return "false"
 	}
 	// slice contents
 	v := env.eval(e)
